@@ -58,6 +58,9 @@ func next(kind string) uint64 {
 	for pos < len(replay.Nondets) {
 		n := replay.Nondets[pos]
 		pos++
+		if len(n.Tag) > 0 && n.Tag[0] == '~' {
+			continue // produced inside an engine-only stub (vr.Replace); the native run executes the real function
+		}
 		if n.Kind == kind || (kind == "choice" && n.Kind == "choice") {
 			return n.Val
 		}
